@@ -1,5 +1,5 @@
 (* C04 — Order accounting and lifetime: nothing lost, no fill after cancel or expiry (market level). *)
-Require Import Pams.Prelude Pams.Match Pams.Market Pams.MatchQ Pams.MarketInv Pams.MarketExec Pams.MarketLife.
+Require Import Pams.Prelude Pams.Match Pams.Market Pams.MatchQ Pams.MarketInv Pams.MarketExec Pams.MarketLife Pams.MarketAcct.
 Open Scope Z_scope.
 
 (* lifetime invariant of every reachable state, for ANY operation list whose submissions satisfy what
@@ -70,6 +70,39 @@ Proof.
   destruct (mk =? m_id m) eqn:E2; [apply Z.eqb_eq in E2; contradiction|]. reflexivity.
 Qed.
 Print Assumptions C04_resubmission_and_foreign_market_refused.
+
+(* NOTHING IS LOST (the accounting identity of the property's first sentence, over whole lifetimes).  [accepted rs i] is the
+   volume of the acceptance record of order i, [filled rs i] the sum of the fill records naming it, [term rs i] the volume
+   reported by its FIRST cancellation / expiry record, [rest_vol m i] what rests under that id at the end.  From market
+   setup, for every list of valid operations: accepted = fills + resting + first terminal volume; a resting order has had
+   no terminal event; resting volume is never negative. *)
+Theorem C04_nothing_lost : forall id tk mp0 ops, Forall valid_op ops ->
+  let m := final_state (init_market id tk mp0) ops in
+  let rs := trace (init_market id tk mp0) ops in
+  forall i v0, accepted rs i = Some v0 ->
+    v0 = filled rs i + rest_vol m i + tv rs i /\ (rest_vol m i <> 0 -> term rs i = None) /\ 0 <= rest_vol m i.
+Proof. exact nothing_lost. Qed.
+Print Assumptions C04_nothing_lost.
+
+(* once an order has had its first terminal event reporting volume t, nothing rests and its fills sum to accepted - t,
+   in every continuation (later cancels of the same order change nothing) *)
+Theorem C04_terminal_volume_is_final : forall id tk mp0 ops, Forall valid_op ops ->
+  let m := final_state (init_market id tk mp0) ops in
+  let rs := trace (init_market id tk mp0) ops in
+  forall i v0 t, accepted rs i = Some v0 -> term rs i = Some t -> rest_vol m i = 0 /\ filled rs i = v0 - t.
+Proof. exact terminal_volume_is_final. Qed.
+Print Assumptions C04_terminal_volume_is_final.
+
+Example C04_accounting_nonvacuous :
+  let ops := [OTick (100#1); ORun true; OTick (100#1);
+              OAdd 1 0 false (Some (100#1)) 5 (Some 1); OAdd 2 0 true (Some (100#1)) 2 None;
+              OExec; OCancel 1; OAdd 2 0 true (Some (99#1)) 7 None; OTick (100#1); OTick (100#1); OCancel 2; OCancel 0] in
+  let m := final_state (init_market 0 (1#1) (100#1)) ops in
+  let rs := trace (init_market 0 (1#1) (100#1)) ops in
+  (accepted rs 0, filled rs 0, term rs 0, rest_vol m 0) = (Some 5, 2, Some 3, 0) /\
+  (accepted rs 1, filled rs 1, term rs 1, rest_vol m 1) = (Some 2, 2, Some 0, 0) /\
+  (accepted rs 2, filled rs 2, term rs 2, rest_vol m 2) = (Some 7, 0, Some 7, 0).
+Proof. exact acct_example. Qed.
 
 Example C04_nonvacuous :
   let ops := [OTick (100#1); ORun true; OAdd 1 0 false (Some (100#1)) 5 (Some 1); OAdd 2 0 true (Some (99#1)) 2 (Some 2);
